@@ -28,24 +28,24 @@ type PropDef struct {
 	QuickCases, ThoroughCases int
 	Race                      bool
 	Stalls                    bool // the property's oracles tolerate injected stalls (a task descheduled for a while at a scheduling point)
-	Gen   func(r *Rnd, t Tier) *Case
-	Check func(c *checkCtx)
-	Valid func(sc *Scenario) bool // premise of the property; shrinking stays inside it
-	Rule  string
-	Components []string
-	Stubs      []string
-	Assumptions []string
+	Gen                       func(r *Rnd, t Tier) *Case
+	Check                     func(c *checkCtx)
+	Valid                     func(sc *Scenario) bool // premise of the property; shrinking stays inside it
+	Rule                      string
+	Components                []string
+	Stubs                     []string
+	Assumptions               []string
 }
 
 // checkCtx carries one run's results to the oracles.
 type checkCtx struct {
-	T     *testing.T
-	Prop  string
-	Res   *RunResult
-	Base  *RunResult // base run of a sweep (nil for the base itself)
-	Views []*ExecView
-	Cov   map[string]int
-	Viol  []Violation
+	T       *testing.T
+	Prop    string
+	Res     *RunResult
+	Base    *RunResult // base run of a sweep (nil for the base itself)
+	Views   []*ExecView
+	Cov     map[string]int
+	Viol    []Violation
 	baseCfg simrt.Config // configuration to recompute the base run with (replay)
 	twin    *RunResult   // synchronous twin of an asynchronous scenario
 }
